@@ -205,7 +205,8 @@ def stream_small(ctx, rng, n):
         # the REAL WebSession._add_basic_auth_header on a request with that login
         req = _Request('http://h.example/')
         req.username, req.password = u, p
-        WebSession._add_basic_auth_header(types.SimpleNamespace(), req)
+        # a real (fresh) WebSession object: the method may keep state on it
+        WebSession(req, http_client=None, redirect_tracker=None, request_factory=_Request)._add_basic_auth_header(req)
         real = req.fields.get('Authorization') or ''
         ctx.case(('auth', u, p), tags=['names:auth', 'names:auth-long' if len(u) + len(p) >= 57 else 'names:auth-short'])
         case = {'stream': 'auth', 'user': u, 'password': p}
@@ -447,6 +448,22 @@ def gen_chain_case(rng, proxy=False):
         replies = [{'status': 401, 'location': None, 'cookies': [b'ckA=v%d' % rng.randrange(1000)], 'mode': 'resp'},
                    {'status': rng.choice([307, 308]), 'location': ('http://%s/t%d' % (other, rng.randrange(100))).encode(),
                     'cookies': [b'ckB=v%d' % rng.randrange(1000)] if rng.random() < 0.5 else [], 'mode': 'resp'}] + replies
+    elif rng.random() < 0.10:
+        # the Authorization value is computed more than once in one session, from different inputs: user-info in the first URL
+        # AND in the Location; a URL login plus the configured login and a replayed redirect whose target answers 401
+        u = rng.randrange(1000)
+        h1, h2 = rng.sample(['a.example', 'b.example', 'c.test', 'sub.a.example', 'a.example:8080'], 2)
+        url = 'http://alice%d:wonder%d@%s/start' % (u, u, h1)
+        max_redirects = 20
+        if rng.random() < 0.5:
+            replies = [{'status': rng.choice([301, 302, 303, 307, 308]), 'location': ('http://bob%d:builder%d@%s/next' % (u, u, h2)).encode(), 'cookies': [], 'mode': 'resp'},
+                       {'status': rng.choice([200, 302]), 'location': ('http://carol%d:pw%d@%s/third' % (u, u, h1)).encode(), 'cookies': [], 'mode': 'resp'},
+                       {'status': 200, 'location': None, 'cookies': [], 'mode': 'resp'}]
+        else:
+            login = ('carol%d' % u, 'pw%d' % u)
+            replies = [{'status': rng.choice([307, 308]), 'location': ('http://%s/next' % h2).encode(), 'cookies': [], 'mode': 'resp'},
+                       {'status': 401, 'location': None, 'cookies': [], 'mode': 'resp'},
+                       {'status': 200, 'location': None, 'cookies': [], 'mode': 'resp'}]
     elif rng.random() < 0.12:
         # aimed at the cookie jar's notion of "host": twin hosts, every host issuing its own host-only cookie,
         # bouncing between them so that each is fetched after the other has set a cookie
